@@ -103,7 +103,11 @@ class Step:
     def __init__(s, path):
         s.path = path; s.pc = path.pc; s.ex = path.ex; s.model = path.value
         recs = [l for l in path.ex.loops if l['kind'] == 'recurrence']
-        if len(recs) != 1: raise Unsupported("expected exactly one step loop, found %d" % len(recs))
+        if not recs: raise Unsupported("no step loop found")
+        # the step loop is the recurrence that builds the most series; other append loops (e.g. a time grid built by a loop) are auxiliary:
+        # their lists are finished, element-wise readable lists by the time the step loop runs
+        recs = sorted(recs, key=lambda l: -len(l['lists']))
+        if len(recs) > 1 and len(recs[0]['lists']) == len(recs[1]['lists']): raise Unsupported("expected one step loop, found %d equally large ones" % len(recs))
         s.rec = recs[0]; s.locals = s.rec['locals']
         # the loop's lists under canonical names: a list that the returned model exposes in field F is called by F's series name,
         # whatever the local variable is called (the proofs speak about the reported series, not about local names)
